@@ -82,6 +82,30 @@ func runC16(c *Ctx) {
 		nexit := 0
 		for _, t := range traces {
 			if t.End == EndCut {
+				// the loop goes round again: only after the read handler / the send of this iteration succeeded.
+				// An error (including a fired deadline, which is "temporary") that lets the loop continue keeps a
+				// dead session alive: it is never ended, its slot never returned
+				facts := t.factsBefore(len(t.Events))
+				for i, e := range t.Events {
+					if e.Kind != EvCall || e.Res == nil || e.Deferred {
+						continue
+					}
+					isIO := (e.Method != nil && (e.Method.Name() == "Read" || e.Method.Name() == "SetReadDeadline" || e.Method.Name() == "SetWriteDeadline" || e.Method.Name() == "Write")) && e.Callee == nil
+					if !isIO {
+						continue
+					}
+					errv := e.Res
+					if errv.Kind == KTuple {
+						errv = errv.Args[len(errv.Args)-1]
+					}
+					if errv.Typ == nil || errv.Typ.String() != "error" {
+						continue
+					}
+					if hasFact(facts, func(f Fact) bool { return f.X.Key() == errv.Key() && f.Op == token.NEQ && f.Y.isNilConst() }) && ok {
+						ok = false
+						c.violated("C16.exit-always", cons, e.Pos, "the loop continues after "+e.Method.Name()+" returned an error: a read/write error or timeout does not end the session (a silent peer is never dropped, OnExit never runs, the connection count is never given back)", c.witness(t, i)...)
+					}
+				}
 				continue
 			}
 			nexit++
